@@ -48,7 +48,7 @@ def csel(cs, n_op):
     if k == "list":
         return tuple(cs["ns"]) if n_op % 2 else list(cs["ns"])
     if k == "nslice":
-        return slice(cs["a"] or None, cs["b"] or None)
+        return slice(cs["a"] or None, cs["b"] or None, cs.get("s") if cs.get("s") not in (None, 1) or n_op % 2 else None)
     return None
 
 
